@@ -67,19 +67,28 @@ func drawC12(t *rapid.T) *C12Case {
 			} else {
 				a.Kind = rapid.SampledFrom([]string{"exec", "exec", "execOC", "execTree"}).Draw(t, "execKind")
 			}
-			a.CT = rapid.SampledFrom(allClipTypes).Draw(t, "ct")
+			a.CT = drawClipTypeAny(t, "ct")
 			a.FR = rapid.SampledFrom(allFillRules).Draw(t, "fr")
 			a.Sol = rapid.SampledFrom([]string{"fresh", "junk", "previous", "spare", "inputs"}).Draw(t, "sol")
 		}
 		c.Actions = append(c.Actions, a)
 	}
 	// make sure the history ends with an execute
-	last := C12Action{Kind: "exec", CT: rapid.SampledFrom(allClipTypes).Draw(t, "lastCT"), FR: rapid.SampledFrom(allFillRules).Draw(t, "lastFR"), Sol: "junk", Delta: 3}
+	last := C12Action{Kind: "exec", CT: drawClipTypeAny(t, "lastCT"), FR: rapid.SampledFrom(allFillRules).Draw(t, "lastFR"), Sol: "junk", Delta: 3}
 	if c.Engine == "offset" {
 		last.Kind = "execOffset"
 	}
 	c.Actions = append(c.Actions, last)
 	return c
+}
+
+// drawClipTypeAny: the four operations, and now and then NoClip or a value outside the enum
+// (both documented to "do nothing and succeed"; seeded change C12-E hid stale output behind them).
+func drawClipTypeAny(t *rapid.T, label string) c2.ClipType {
+	if rapid.IntRange(0, 6).Draw(t, label+"Odd") == 0 {
+		return rapid.SampledFrom([]c2.ClipType{c2.NoClip, c2.NoClip, c2.ClipType(5), c2.ClipType(255)}).Draw(t, label+"Val")
+	}
+	return rapid.SampledFrom(allClipTypes).Draw(t, label)
 }
 
 // engineUnderTest wraps the three engine kinds behind the history's operations.
@@ -213,7 +222,7 @@ func (e *engineUnderTest) exec(a C12Action, prev64 *Paths, prevD *c2.PathsD) out
 			tr.AddChild(junkPolygons()[0]) // junk child that must be replaced
 			op := junkD()
 			ok := e.e64.ExecutePolyTree64(a.CT, a.FR, tr, &op)
-			return outcome{ok: ok, closed: treePolygons(tr.PolyPathBase), tree: treeFingerprint(tr.PolyPathBase), extra: fmt.Sprintf("openD=%v", op)}
+			return outcome{ok: ok, closed: treePolygons(tr.PolyPathBase), open: pathsFromD(op, 1), tree: treeFingerprint(tr.PolyPathBase)}
 		default:
 			sol := junk64()
 			ok := e.e64.Execute(a.CT, a.FR, &sol)
